@@ -260,5 +260,5 @@ def run_property(pid, body, tier="quick", seed=0, root=None):
     except RecursionError:
         err = "recursion limit in analysis"
     except Exception as e:   # internal error: never a verdict
-        err = "internal error: %s: %s | %s" % (type(e).__name__, e, traceback.format_exc().splitlines()[-3:])
+        err = "internal error: %s: %s | %s" % (type(e).__name__, e, traceback.format_exc().splitlines()[-int(os.environ.get("FDCHECK_TB", "3")):])
     return finish(check, err)
